@@ -4,6 +4,7 @@ import (
 	"fmt"
 	"go/token"
 	"go/types"
+	"os"
 	"sort"
 	"strings"
 
@@ -131,6 +132,10 @@ func (g *enumGuard) stateAt(fn *ssa.Function, base ssa.Value, at ssa.Instruction
 		if ssa.Value(p) == sb {
 			entry = g.entryState(fn, i)
 		}
+	}
+	// the object travels in a context struct that fn receives (by pointer or by value): r.p of proposalRound{g, p}
+	if pi, fld, ok := ctxFieldAccess(fn, base); ok {
+		entry = g.entryStateCtx(fn, pi, fld)
 	}
 	res := g.flow.Run(fn, base, entry)
 	return res.At(at)
@@ -429,7 +434,7 @@ func C15(c *Ctx) {
 			}
 			return false, 0
 		})
-		n := c.behindEdges("R15.3", "countVote", cv, es, or(callTo("internal/repo.MakeStrategyDecision"), c.callReaching(chg)),
+		n := c.behindEdges("R15.3", "countVote", cv, es, or(c.throughHelpers(callTo("internal/repo.MakeStrategyDecision")), c.callReaching(chg)),
 			"!IsSpecial or IsSuperAdminVoted", "decision / status change")
 		r.Floor("R15.3", "decision and status-change sites in countVote", n, 2)
 	}
@@ -652,7 +657,7 @@ func C15(c *Ctx) {
 				"decision function is not fed the proposal's own tally fields in order: got ("+strings.Join(got, ", ")+")")
 		}
 	}
-	r.Floor("R15.5", "decision call sites", nd, 2)
+	r.Floor("R15.5", "decision call sites", nd, 1) // 2 on the pinned tree; a shared decide() helper merges them
 }
 
 func shortFn(fn *ssa.Function) string {
@@ -809,10 +814,10 @@ func (c *Ctx) c15StaleAvailability() {
 			bg = call
 		}
 	}
-	isDec := func(in ssa.Instruction) bool {
+	isDec := c.throughHelpers(func(in ssa.Instruction) bool {
 		call, ok := in.(ssa.CallInstruction)
 		return ok && strings.HasSuffix(core.CalleeName(call), "RoleManager).updateRoleRelatedProposalInfo")
-	}
+	})
 	decs := sites(fn, isDec)
 	r.Floor("R15.9", "electorate subtractions in LogoutRole", len(decs), 1)
 	if bg == nil || len(decs) == 0 {
@@ -859,4 +864,143 @@ func (c *Ctx) c15StaleAvailability() {
 		// a value computed before the status change (wasAvailable) guards the subtraction: fine when it is computed before
 		r.OK("R15.9", "LogoutRole: availability read on the role as it was before the logout", c.P.Pos(fn.Pos()), "no IsAvailable() test on a record loaded after the status change")
 	}
+}
+
+// ctxFieldAccess: v is field fld of parameter pi of fn, where that parameter is a module struct (a context struct /
+// parameter object), passed by pointer or by value.
+func ctxFieldAccess(fn *ssa.Function, v ssa.Value) (pi, fld int, ok bool) {
+	var holder ssa.Value
+	switch x := v.(type) {
+	case *ssa.Field:
+		holder, fld = x.X, x.Field
+	case *ssa.UnOp:
+		fa, isFA := x.X.(*ssa.FieldAddr)
+		if x.Op != token.MUL || !isFA {
+			return 0, 0, false
+		}
+		holder, fld = fa.X, fa.Field
+		// a value parameter spilled into a local: *(&local.f) with local = param
+		if al, isAl := holder.(*ssa.Alloc); isAl {
+			for _, sv := range core.StoresInto(al) {
+				if _, isP := sv.(*ssa.Parameter); isP {
+					holder = sv
+				}
+			}
+		}
+	default:
+		return 0, 0, false
+	}
+	par, isPar := holder.(*ssa.Parameter)
+	if !isPar || par.Parent() != fn {
+		return 0, 0, false
+	}
+	t := par.Type()
+	if pt, isPtr := t.Underlying().(*types.Pointer); isPtr {
+		t = pt.Elem()
+	}
+	named, isNamed := t.(*types.Named)
+	if !isNamed || named.Obj().Pkg() == nil || !core.InModulePath(named.Obj().Pkg().Path()) || named.Obj().Exported() {
+		return 0, 0, false
+	}
+	if _, isStruct := named.Underlying().(*types.Struct); !isStruct {
+		return 0, 0, false
+	}
+	for i, q := range fn.Params {
+		if q == par {
+			return i, fld, true
+		}
+	}
+	return 0, 0, false
+}
+
+// entryStateCtx: join, over the call sites of fn, of the state of the object stored in field fld of the context
+// struct handed over as argument pi.
+func (g *enumGuard) entryStateCtx(fn *ssa.Function, pi, fld int) core.EnumSet {
+	key := fmt.Sprintf("%s#%d.%d", core.FnName(fn), pi, fld)
+	if s, ok := g.entryMemo[key]; ok {
+		return s
+	}
+	if g.visiting[key] {
+		return core.EnumSet{Vals: map[string]bool{}}
+	}
+	g.visiting[key] = true
+	defer delete(g.visiting, key)
+	out := core.EnumSet{Vals: map[string]bool{}}
+	n := 0
+	for _, site := range core.StaticSitesOf(fn) {
+		n++
+		args := site.Common().Args
+		if pi >= len(args) {
+			out = core.TopSet()
+			break
+		}
+		// the struct: an alloc (pointer passed) or a load of one (value passed)
+		var al *ssa.Alloc
+		switch a := args[pi].(type) {
+		case *ssa.Alloc:
+			al = a
+		case *ssa.UnOp:
+			al, _ = a.X.(*ssa.Alloc)
+		}
+		var val ssa.Value
+		if al != nil {
+			for _, rf := range *al.Referrers() {
+				if fa, ok := rf.(*ssa.FieldAddr); ok && fa.X == ssa.Value(al) && fa.Field == fld {
+					for _, rr := range *fa.Referrers() {
+						if st, ok := rr.(*ssa.Store); ok && st.Addr == ssa.Value(fa) {
+							val = st.Val
+						}
+					}
+				}
+			}
+		}
+		caller := site.Parent()
+		if val == nil || caller == nil {
+			// handed on from the caller's own context parameter
+			if p2, f2, ok := ctxParamPassThrough(caller, args[pi]); ok {
+				_ = f2
+				st := g.entryStateCtx(caller, p2, fld)
+				if st.Top {
+					out = core.TopSet()
+					break
+				}
+				for k := range st.Vals {
+					out.Vals[k] = true
+				}
+				continue
+			}
+			out = core.TopSet()
+			break
+		}
+		st := g.stateAt(caller, val, site)
+		if os.Getenv("BXH_DEBUG") != "" {
+			fmt.Fprintf(os.Stderr, "entryStateCtx %s <- %s at %s: top=%v vals=%v\n", core.FnName(fn), core.FnName(caller), g.c.P.Pos(site.Pos()), st.Top, st.Vals)
+		}
+		if st.Top {
+			out = core.TopSet()
+			break
+		}
+		for k := range st.Vals {
+			out.Vals[k] = true
+		}
+	}
+	if n == 0 {
+		out = core.TopSet()
+	}
+	g.entryMemo[key] = out
+	return out
+}
+
+// ctxParamPassThrough: v is (a load of) a parameter of fn itself (the context handed on to a further helper).
+func ctxParamPassThrough(fn *ssa.Function, v ssa.Value) (int, int, bool) {
+	if fn == nil {
+		return 0, 0, false
+	}
+	v = core.Strip(v)
+	for i, q := range fn.Params {
+		if ssa.Value(q) == v {
+			return i, 0, true
+		}
+	}
+	return 0, 0, false
 }
